@@ -221,12 +221,19 @@ class ASEEngine(EngineBase):
             atoms = atoms[0]
         kin_old = atoms.get_kinetic_energy()
 
-        MaxwellBoltzmannDistribution(atoms, temperature_K=self.temperature)
-        kin_new = atoms.get_kinetic_energy()
+        # draw from the job's engine stream (ase falls back to the global
+        # numpy state when rng is None)
+        MaxwellBoltzmannDistribution(
+            atoms,
+            temperature_K=self.temperature,
+            rng=getattr(self, "rgen", None),
+        )
         if vel_settings.get("zero_momentum", False):
             # TODO: should we preserve temperature or not?
             # The other engines do not bother to preserve the temperature
             Stationary(atoms, preserve_temperature=False)
+        # kinetic energy of the velocities that are actually written
+        kin_new = atoms.get_kinetic_energy()
 
         conf_out = os.path.join(self.exe_dir, "genvel.traj")
         atoms.write(conf_out)
